@@ -197,8 +197,9 @@ pub fn check(case: &Case, ctx: &mut Ctx) {
             }
             Op::Remove { k } => {
                 let ki = *k as usize % NKEYS;
-                // the real callers (prune, clean-up, failed write) only ever remove listed keys
-                if sim.has_key(&keys[ki]) {
+                // removes are issued for keys the store lists or has a write in flight for (prune and
+                // clean-up remove listed keys, the failed-write path removes an in-flight one)
+                if sim.has_key(&keys[ki]) || unacked[ki] > 0 {
                     if unacked[ki] > 0 {
                         inflight_remove = true;
                         removed_inflight[ki] = true;
@@ -366,7 +367,7 @@ pub fn run(cfg: RunCfg) {
     rep.assumptions = vec![
         "single-threaded stepping: same-key background tasks run FIFO (the statement excludes same-key reordering); different-key completion order is permuted through the notification order".into(),
         "keys whose write was made to fail by the harness (directory in place of the file) are only checked for 'reads return bytes handed in for that key'".into(),
-        "remove is only issued for keys the store currently lists (as prune / clean-up / failed-write do)".into(),
+        "remove is only issued for keys the store currently lists or has an unacknowledged write for (as prune / clean-up / the failed-write path do)".into(),
     ];
     vh_core::section!(
         rep, "history", (6_000, 300_000), 16,
